@@ -37,6 +37,8 @@ pub enum BytesE {
     Local(String),
     Concat(Box<BytesE>, Box<BytesE>),
     InputField(String, usize, String),
+    /// the name of a policy definition used as a value: (name, the hash it stands for)
+    PolicyName(String, Vec<u8>),
 }
 
 #[derive(Debug, Clone, Serialize, Deserialize, PartialEq)]
@@ -293,6 +295,7 @@ impl P {
                 self.tok(")");
             }
             BytesE::InputField(i, _, f) => self.toks(&[i, ".", f]),
+            BytesE::PolicyName(n, _) => self.tok(n),
         }
     }
 
@@ -1186,7 +1189,7 @@ pub fn generate(c: &mut Chooser) -> Scenario {
     prog.outputs.push(GOutput { name: None, optional: false, to: AddrE::Party(sender.to_string()), amount: AssetE::Fees, datum: None });
 
     // mint / burn
-    let mint_kind = g.pick("mint", &["none", "static-asset", "anyasset", "mint+burn", "two-mints", "anyasset-n", "burn-n", "same-asset-twice-n", "mint-n+burn-n-same-asset"]);
+    let mint_kind = g.pick("mint", &["none", "static-asset", "anyasset", "mint+burn", "two-mints", "anyasset-n", "burn-n", "same-asset-twice-n", "mint-n+burn-n-same-asset", "anyasset-policy-by-name"]);
     let (minted, burned): (Option<AssetE>, Option<AssetE>) = match mint_kind {
         0 => (None, None),
         1 => {
@@ -1198,6 +1201,15 @@ pub fn generate(c: &mut Chooser) -> Scenario {
         2 => {
             let m = AssetE::AnyAsset(BytesE::Hex(POLICY_B.to_vec()), BytesE::Str("SILVER".into()), IntE::Param("q".into()));
             prog.mints.push(GMint { amount: m.clone(), redeemer: DataE::Int(IntE::Lit(1)), no_redeemer: false });
+            (Some(m), None)
+        }
+        // the policy of the minted asset given by the name of a `policy` definition (the minted amount also appears
+        // in the change output's arithmetic)
+        9 => {
+            let pol = ensure_policy(&mut prog);
+            let (name, hash) = prog.policies[pol].clone();
+            let m = AssetE::AnyAsset(BytesE::PolicyName(name, hash), BytesE::Str("SILVER".into()), IntE::Lit(5));
+            prog.mints.push(GMint { amount: m.clone(), redeemer: DataE::Unit, no_redeemer: false });
             (Some(m), None)
         }
         3 => {
